@@ -1,5 +1,5 @@
 (* Props/C14.v — errors name the first offending record; warnings appear iff the anomaly occurred.
-   (engine and TableIterator part; the CSV reader/writer warnings are stated in Props/C10.v, C12.v) *)
+   First the engine and TableIterator part, then (end of file) the CSV reader / writer warnings. *)
 From RBQL Require Import Base Value Expr Writers Join Agg Engine Spec Engine_Proofs Update_Proofs Warn Warn_Proofs.
 
 (* classification of a failure raised while evaluating record nr: a bad field access names the record and the
@@ -84,3 +84,79 @@ Example C14_nonvacuous :
   field_count_warning [2; 2; 3; 1; 2] = Some (2, 1, 3, 3) /\ field_count_warning [4; 4; 4] = None.
 Proof. split; reflexivity. Qed.
 Print Assumptions C14_nonvacuous.
+
+(* ------------------------------------------------------------------ the CSV-level warnings are exact *)
+From RBQL Require Import Lines Csv CsvSpec CsvWriter Reader CsvLossy_Proofs WarnCsv_Proofs.
+
+(* The reader (records_of_lines = the Python stream reader on every partition, C12_records, = the JavaScript stream reader on
+   every chunking and schedule, C20 / C18_readers_agree), for ANY splitter and configuration: the BOM warning is raised exactly
+   when the first physical line starts with the byte order mark of the assumed encoding (U+FEFF for utf-8, EF BB BF for
+   latin-1, never without an encoding); the defective-line warning cites the physical line of the FIRST non-comment row that
+   the splitter flags, and is absent when there is none; under quoted_rfc the same condition is an error citing that record
+   and line instead.   data_rows = the non-comment logical rows with the number of their last physical line *)
+Theorem C14_reader_warnings_exact : forall (split : str -> list str * bool) (c : cfg) (lines : list str),
+  match records_of_lines split c lines with
+  | ROk _ _ w _ _ =>
+      w_bom w = match lines with l :: _ => line_has_bom (c_enc c) l | [] => false end /\
+      (if c_rfc c then w_defective w = None /\ first_warn split (data_rows c lines) = None
+       else w_defective w = option_map snd (first_warn_nr split 0 (data_rows c lines)))
+  | RErr nr nl => c_rfc c = true /\ first_warn_nr split 0 (data_rows c lines) = Some (nr, nl)
+  end.
+Proof. exact reader_warnings_exact. Qed.
+Print Assumptions C14_reader_warnings_exact.
+
+Theorem C14_bom_iff : forall (split : str -> list str * bool) (c : cfg) (lines : list str) recs h w nl nr,
+  records_of_lines split c lines = ROk recs h w nl nr ->
+  (w_bom w = true <-> exists l rest, lines = l :: rest /\ line_has_bom (c_enc c) l = true).
+Proof. exact bom_warning_iff. Qed.
+Print Assumptions C14_bom_iff.
+
+Theorem C14_defective_iff : forall (split : str -> list str * bool) (c : cfg) (lines : list str) recs h w nl nr,
+  c_rfc c = false -> records_of_lines split c lines = ROk recs h w nl nr ->
+  (w_defective w <> None <-> exists r, In r (data_rows c lines) /\ snd (split (fst r)) = true).
+Proof. exact defective_warning_iff. Qed.
+Print Assumptions C14_defective_iff.
+
+Theorem C14_rfc_error_iff : forall (split : str -> list str * bool) (c : cfg) (lines : list str),
+  c_rfc c = true ->
+  ((exists nr nl, records_of_lines split c lines = RErr nr nl) <->
+   exists r, In r (data_rows c lines) /\ snd (split (fst r)) = true).
+Proof. exact rfc_error_iff. Qed.
+Print Assumptions C14_rfc_error_iff.
+
+(* The writer, on a run that raised no error: the None warning is raised exactly when some cell of some record (header
+   included, also inside a list cell) is None; the delimiter warning exactly when the policy is simple / whitespace and the
+   port's detector fires on some record; for a one-character delimiter and non-empty records (Python port) that is exactly
+   "some output field contains the delimiter" *)
+Theorem C14_writer_flags_exact : forall (fl : lang) (pol : policy) (dlm : str) (header : option (list cell))
+    (rows : list (list cell)) (lines : list str) (nf df : bool),
+  write_table fl pol dlm header rows = (lines, None, nf, df) ->
+  let all := match header with Some h => h :: rows | None => rows end in
+  nf = existsb (existsb has_none) all /\ df = existsb (row_delim_flag fl pol dlm) all.
+Proof. exact writer_flags_exact. Qed.
+Print Assumptions C14_writer_flags_exact.
+
+Theorem C14_none_iff : forall (fl : lang) (pol : policy) (dlm : str) (header : option (list cell))
+    (rows : list (list cell)) (lines : list str) (nf df : bool),
+  write_table fl pol dlm header rows = (lines, None, nf, df) ->
+  (nf = true <-> exists row, In row (match header with Some h => h :: rows | None => rows end) /\ existsb has_none row = true).
+Proof. exact none_warning_iff. Qed.
+Print Assumptions C14_none_iff.
+
+Theorem C14_delim_iff_single : forall (pol : policy) (c : ch) (header : option (list cell)) (rows : list (list cell))
+    (lines : list str) (nf df : bool),
+  write_table LPy pol [c] header rows = (lines, None, nf, df) -> lossy_policy pol = true ->
+  let all := match header with Some h => h :: rows | None => rows end in
+  Forall (fun row => row <> []) all ->
+  (df = true <-> exists row f, In row all /\ In f (fst (normalize_fields [c] row)) /\ has c f = true).
+Proof. exact delim_warning_iff_single. Qed.
+Print Assumptions C14_delim_iff_single.
+
+(* non-vacuity: a latin-1 BOM in front of a quoted line with a stray quote, then a comment line, then a clean line *)
+Example C14_csv_warnings_nonvacuous :
+  let c := {| c_rfc := false; c_comment := Some [35%N]; c_header := false; c_enc := EncLatin1; c_modifier := None |} in
+  exists recs w, records_of_lines (smart_split Quoted [COMMA] false) c
+                   [[239; 187; 191; 97; QT; 98]%N; [35; 120]%N; [99; COMMA; 100]%N] = ROk recs None w 3 2
+    /\ w_bom w = true /\ w_defective w = Some 1%nat /\ w_fields w = Some (1, 1, 2, 2)%nat.
+Proof. vm_compute. do 2 eexists. repeat split. Qed.
+Print Assumptions C14_csv_warnings_nonvacuous.
